@@ -49,7 +49,7 @@ Match(es, gs, prefixOK) ==
     ELSE \/ FrameEq(Head(es).f, Head(gs)) /\ Match(Tail(es), Tail(gs), prefixOK)
          \/ Head(es).opt /\ Match(Tail(es), gs, prefixOK)
 
-StepOK(cfg, s, st) ==
+AnswersOK(cfg, s, st) ==
     LET b == Burst(cfg, s, st.tx)
     IN \* when the burst itself ends the connection (Separate while Selected, rejected Select), answers still
        \* queued behind it may be discarded with the generation: a prefix is then all that is required
@@ -58,8 +58,15 @@ StepOK(cfg, s, st) ==
        \* a second TCP connection during a live session is refused without a frame and disturbs nothing
        /\ st.second >= 0 => (st.second = 0 /\ st.second_closed)
        /\ st.alive = b.s.up
-       \* after a drop an active endpoint may already have re-dialled (NotSelected again)
-       /\ IF b.s.up THEN st.state = b.s.sel ELSE st.state \in {"NC", "NS"}
+StateOK(cfg, s, st) ==
+    LET b == Burst(cfg, s, st.tx)
+    IN \* after a drop an active endpoint may already have re-dialled (NotSelected again)
+       IF b.s.up THEN st.state = b.s.sel ELSE st.state \in {"NC", "NS"}
+StepOK(cfg, s, st) == AnswersOK(cfg, s, st) /\ StateOK(cfg, s, st)
+(* every frame, delivery and liveness observation of the step is right and only State() is wrong: it still says Selected
+   although the deselection was accepted and answered (the shape of known finding F1 seen from outside) *)
+StuckSelected(cfg, s, st) ==
+    /\ AnswersOK(cfg, s, st) /\ Burst(cfg, s, st.tx).s.up /\ Burst(cfg, s, st.tx).s.sel = "NS" /\ st.state = "S"
 
 RECURSIVE StepsOK(_, _, _)
 StepsOK(cfg, s, steps) ==
@@ -83,8 +90,12 @@ PreOK(r) == IF r.role = "active"
             ELSE r.pre = <<>>
 
 JudgeC08(r) == r.fault = "" /\ PreOK(r) /\ StepsOK(Cfg(r), Start(r), r.steps)
+RECURSIVE StateAt(_, _, _, _)
+StateAt(cfg, s, steps, i) == IF i = 1 THEN s ELSE StateAt(cfg, Burst(cfg, s, Head(steps).tx).s, Tail(steps), i - 1)
 WhyC08(r) == IF r.fault /= "" THEN "Fault" ELSE IF ~PreOK(r) THEN "Pre"
-             ELSE "Step" \o ToString(FirstBad(Cfg(r), Start(r), r.steps, 1))
+             ELSE LET i == FirstBad(Cfg(r), Start(r), r.steps, 1) IN
+                  IF i > 0 /\ StuckSelected(Cfg(r), StateAt(Cfg(r), Start(r), r.steps, i), r.steps[i])
+                  THEN "StuckSelected" \o ToString(i) ELSE "Step" \o ToString(i)
 
 Judge(r) == CASE r.t = "c08" -> JudgeC08(r)
 Why(r) == CASE r.t = "c08" -> WhyC08(r)
